@@ -182,7 +182,9 @@ theorem referenceMessage_describes (ds : DescSet) (reg : Reg) (full p k : String
         · simp [hw, describesItem, hm]
         · simp [hw, describesItem, hm]
       split at h
-      · cases h; exact key _ rfl
+      · split at h
+        · cases h
+        · cases h; exact key _ rfl
       · cases h; exact key _ rfl
 
 theorem buildSchema_describes (ds : DescSet) (reg : Reg) (kind : PKind) (t : Target) (e : Ext)
@@ -347,7 +349,9 @@ theorem referenceMessage_opDesc (ds : DescSet) (reg : Reg) (full : String) (fl :
     · cases h
     · simp only at h
       split at h
-      · cases h; intro op hop; cases hop
+      · split at h
+        · cases h
+        · cases h; intro op hop; cases hop
       · cases h
         intro op hop
         simp only [List.mem_singleton] at hop
@@ -388,7 +392,9 @@ theorem buildSchema_opDesc (ds : DescSet) (reg : Reg) (kind : PKind) (t : Target
         cases hx
         unfold enumTarget at ht
         split at ht
-        · cases ht; intro op hop; cases hop
+        · split at ht
+          · cases ht
+          · cases ht; intro op hop; cases hop
         · obtain ⟨r, hr, hx⟩ := map_eq_ok ht
           cases hx
           intro op hop
@@ -672,8 +678,10 @@ theorem messagesLoop_describes (ds : DescSet) (hsf : structFreeSet ds = true) (n
         unfold messageSchema at hms
         split at hms
         · split at hms
-          · cases hms; exact hreg
           · cases hms
+          · split at hms
+            · cases hms; exact hreg
+            · cases hms
         · exact buildMessage_describes ds hsf reg m (msg?_mem ds full m hm) hreg reg1 hms
       · cases h
       · cases h
@@ -689,11 +697,13 @@ theorem enumsLoop_describes (ds : DescSet) (names : List String) (reg : Reg)
     · cases h
     · rename_i en hen
       split at h
-      · exact ih reg hreg h
+      · split at h
+        · cases h
+        · exact ih reg hreg h
       · split at h
         · rename_i r hb
           apply ih _ _ h
-          exact hreg.apply (.link en.pkg en.split full r) (buildEnum_rootDesc ds en r _ _ hb)
+          exact hreg.apply (.link en.pkg en.split en.full r) (buildEnum_rootDesc ds en r _ _ hb)
         · cases h
         · cases h
 
